@@ -72,8 +72,15 @@ def metamorphic(ctx, rng):
                 ts, unary = uts, True
                 kw["allow_unary"] = True
                 break
+    missing = False
+    if not unary and not unphased and rng.random() < (0.4 if method != "variational_gamma" else 0.15):
+        # missing data: samples isolated over part of the genome, so trees differ in their number of sample tips
+        # (the conditional-coalescent prior of a node is then a span-weighted mixture over several tip totals)
+        mts = gen.detach_sample(rng, ts, k=rng.randint(1, 2))
+        if mts is not None and mts.num_mutations > 0:
+            ts, missing = mts, True
     r = D.call(method, ts, **kw)
-    desc = {"method": method, "opts": D.jsonable_opts(kw), "ts": gen.ts_summary(ts), "unary_chain": unary}
+    desc = {"method": method, "opts": D.jsonable_opts(kw), "ts": gen.ts_summary(ts), "unary_chain": unary, "missing_data": missing}
     if r[0] != "ok":
         ctx.case(dict(desc, outcome=r[1]), nontrivial=False, kind="meta/raise")
         return
